@@ -25,6 +25,7 @@ import (
 	"context"
 	"fmt"
 	"os"
+	"runtime"
 	"sort"
 	"strings"
 	"testing"
@@ -533,6 +534,13 @@ func TestVerif_C32_Hist(t *testing.T) {
 			rt.Skip("tempdir")
 		}
 		defer os.RemoveAll(dir)
+		// diagnostics only: if a case is stuck for 150 s, leave the goroutine stacks behind
+		wd := time.AfterFunc(150*time.Second, func() {
+			buf := make([]byte, 8<<20)
+			buf = buf[:runtime.Stack(buf, true)]
+			os.WriteFile(fmt.Sprintf("/dev/shm/g9-c32-stuck-%d.txt", os.Getpid()), buf, 0o644)
+		})
+		defer wd.Stop()
 		opts := vnode.Fast()
 		opts.ReapTimeout, opts.ReapReadOnlyTimeout = reapCfgs[p.ReapCfg][0], reapCfgs[p.ReapCfg][1]
 		e := &env{rec: rec, c: vnode.NewCluster(dir, opts), model: map[string]*member{}}
@@ -596,6 +604,11 @@ func TestVerif_C32_Hist(t *testing.T) {
 		}
 		interesting := false
 		for _, o := range p.Ops {
+			if e.c.Lost() > 0 {
+				rec.Label("inconclusive:store-close-timeout")
+				rec.Case(false, p.String())
+				return
+			}
 			ok, d := e.apply(o)
 			if d == "no-leader" {
 				rec.Label("inconclusive:no-leader")
@@ -634,7 +647,7 @@ func TestVerif_C32_Hist(t *testing.T) {
 				interesting = true
 			}
 		}
-		if p.Kill {
+		if p.Kill && e.c.Lost() == 0 {
 			l := e.leader()
 			m := e.pickMember(p.KillSel, func(m *member) bool { return m.alive && m.node != l })
 			if l != nil && m != nil && (!m.voter || e.canStopVoter()) {
